@@ -32,7 +32,7 @@ RECURSIVE Uniq(_, _)
 Uniq(ts, seen) == IF ts = <<>> THEN <<>> ELSE IF Head(ts) \in seen THEN Uniq(Tail(ts), seen)
                   ELSE <<Head(ts)>> \o Uniq(Tail(ts), seen \cup {Head(ts)})
 Times(tb) == Uniq([i \in 1..Len(tb) |-> tb[i].t], {})
-FilterStop(c, tb)  == SelectSeq(tb, LAMBDA r : BeforeEq(c, r.t, c.stop))
+FilterStop(c, tb)  == SelectSeq(tb, LAMBDA r : Before(c, r.t, c.stop))            \* window [start, stop)
 FilterStart(c, tb) == SelectSeq(tb, LAMBDA r : BeforeEq(c, c.start, r.t))
 RECURSIVE Ticks(_, _)
 Ticks(c, t) == IF Before(c, t, c.stop) THEN <<t>> \o Ticks(c, IF c.rev THEN t - c.freq ELSE t + c.freq) ELSE <<>>
